@@ -78,9 +78,14 @@ LEVEL_NAME = {1: "f%d", 2: "<lambda>", 3: "go", 4: "inner%d", 5: "gen%d", 6: "re
 
 
 def chain_source(prog, exc):
-    lines = ["class CustomError(Exception):", "    pass", "", "def raiser():"]
+    lines = ["class CustomError(Exception):", "    pass", "", "class ScriptError(Exception):", "    pass", "ScriptError.__module__ = '__main__'", "",
+             "class Outer:", "    class InnerError(Exception):", "        pass", "", "def raiser():"]
     lines.append({1: "    raise ValueError('bad value: 42')", 2: "    raise RuntimeError()", 3: "    raise CustomError('custom failed')",
-                  4: "    raise ValueError('line one\\nline two')"}[exc])
+                  4: "    raise ValueError('line one\\nline two')",
+                  5: "    raise ScriptError('defined in the script being run')",     # a class of __main__ is printed unqualified
+                  6: "    raise Outer.InnerError('nested class')",
+                  7: "    raise KeyError('missing key')",
+                  8: "    raise FileNotFoundError(2, 'No such file or directory', 'x.txt')"}[exc])
     nxt = "raiser"
     for idx in range(len(prog), 0, -1):
         k = prog[idx - 1]
